@@ -83,6 +83,11 @@ func Isolation(name string, tags map[string]bool) *vtx.Profile {
 				} else {
 					e = append(e, vtx.Event{K: "alloc", C: c, L: -1, FixTx: "shared-tx-id"}, vtx.Event{K: "refresh", C: c, L: 0},
 						E("perm", c, 0, "A"), E("chan", c, N1, "A"), E("chan", c, N1, "B"))
+					if c == "c1" {
+						// the allocation ends although its relay socket refuses to be closed (once): whoever allocates on
+						// this 5-tuple next inherits nothing of it - the sweep also knocks at the first relayed address
+						e = append(e, vtx.Event{K: "refresh", C: c, L: 0, Fail: "closeerr"})
+					}
 				}
 			}
 
